@@ -21,8 +21,11 @@ int write_bin(Memory *memory, FILE *out)
 {
   uint32_t n;
 
-  for (n = memory->low_address; n <= memory->high_address; n++)
+  // 64 bit counter: high_address can be 0xffffffff and a 32 bit one would wrap.
+  for (uint64_t a = memory->low_address; a <= memory->high_address; a++)
   {
+    n = (uint32_t)a;
+
     putc(memory->read8(n), out);
   }
 
